@@ -198,12 +198,13 @@ def _grouped_or_aggregated(feature, grouped):
     return all(_grouped_or_aggregated(child, grouped) for _, child in dslgen.children(feature) if dslgen.is_feature(child))
 
 
-def forml_rows(ast, conn, rename=None, split=False):
+def forml_rows(ast, conn, rename=None, split=False, order=None):
     """Build with the real DSL, parse with the real alchemy parser, execute."""
     from forml.provider.feed.reader import alchemy
     from vlib import dslgen
 
-    statement = dslgen.build(ast, rename=rename, split=split)  # split: a top-level AND of where / having as successive calls
+    # split: a top-level AND of where / having as successive calls; order: clause methods called in a seeded permutation
+    statement = dslgen.build(ast, rename=rename, split=split, order=order)
     with alchemy.Parser(dslgen.alchemy_sources(), {}) as visitor:
         statement.accept(visitor)
         selectable = visitor.fetch()
@@ -312,6 +313,12 @@ def check_statement(ctx, engines, raw, data, datakey, share_names=None):
     if split:
         ctx.count('split_filter_cases')
         witness['split'] = True
+    # two statements in three are built with their clause methods (select / where / groupby / having / orderby / limit) called
+    # in another order than the canonical one: every order denotes the same statement
+    order = core.subseed(2, sig) if core.subseed(2, sig) % 3 else None
+    if order is not None:
+        ctx.count('permuted_clause_order_cases')
+        witness['order'] = True
     engines.load(data, datakey)
     for name, conn in engines.conns.items():
         if only is not None and name not in only:
@@ -334,7 +341,7 @@ def check_statement(ctx, engines, raw, data, datakey, share_names=None):
             ctx.note_set('oracle_disagreement_samples', {'sql': mine_sql[:300], 'engine': name}, cap=5)
             continue
         try:
-            theirs, their_sql = forml_rows(ast, conn, rename, split)
+            theirs, their_sql = forml_rows(ast, conn, rename, split, order)
         except Exception as err:  # pylint: disable=broad-except
             try:
                 conn.rollback()
